@@ -5,6 +5,7 @@ use crate::{
     zx::{machine::ZXMachine, video::colors::ZXColor},
     Result,
 };
+use rustzx_z80::Z80Bus;
 
 const SNA_HEADER_SIZE: usize = 27;
 const SNA_128K_SECONDARY_HEADER_SIZE: usize = 4;
@@ -169,25 +170,50 @@ where
 struct ScopedSnapshotState<'a, H: Host> {
     pub emulator: &'a mut Emulator<H>,
     pub is_48k: bool,
+    // State of the running machine which is changed while snapshot is being saved
+    pc: u16,
+    sp: u16,
+    stack_top: [u8; 2],
 }
 
 impl<'a, H: Host> ScopedSnapshotState<'a, H> {
     fn enter(emulator: &'a mut Emulator<H>) -> Self {
         let is_48k = emulator.settings.machine == ZXMachine::Sinclair48K;
+        let pc = emulator.cpu.regs.get_pc();
+        let sp = emulator.cpu.regs.get_sp();
+        let stack_top = [
+            emulator.controller.read_internal(sp.wrapping_sub(2)),
+            emulator.controller.read_internal(sp.wrapping_sub(1)),
+        ];
         if is_48k {
-            emulator.cpu.push_pc_to_stack(&mut emulator.controller);
+            // 48K SNA has no place for PC in the header, it is expected on the stack.
+            // Bus is bypassed: memory contention must not advance time of the running machine
+            let [pcl, pch] = pc.to_le_bytes();
+            emulator.controller.write_internal(sp.wrapping_sub(1), pch);
+            emulator.controller.write_internal(sp.wrapping_sub(2), pcl);
+            emulator.cpu.regs.set_sp(sp.wrapping_sub(2));
         }
 
-        Self { emulator, is_48k }
+        Self {
+            emulator,
+            is_48k,
+            pc,
+            sp,
+            stack_top,
+        }
     }
 }
 
 impl<'a, H: Host> Drop for ScopedSnapshotState<'a, H> {
     fn drop(&mut self) {
         if self.is_48k {
-            self.emulator
-                .cpu
-                .pop_pc_from_stack(&mut self.emulator.controller);
+            // Put back everything changed by `enter`. Just popping PC would leave its bytes
+            // in the memory below SP and would read it from ROM if stack is located there
+            let controller = &mut self.emulator.controller;
+            controller.write_internal(self.sp.wrapping_sub(2), self.stack_top[0]);
+            controller.write_internal(self.sp.wrapping_sub(1), self.stack_top[1]);
+            self.emulator.cpu.regs.set_sp(self.sp);
+            self.emulator.cpu.regs.set_pc(self.pc);
         }
     }
 }
@@ -198,7 +224,9 @@ where
     R: DataRecorder,
 {
     let state = ScopedSnapshotState::enter(emulator);
-    let ScopedSnapshotState { emulator, is_48k } = &state;
+    let ScopedSnapshotState {
+        emulator, is_48k, ..
+    } = &state;
 
     let mut header = [0u8; SNA_HEADER_SIZE];
     // interrupt register
